@@ -646,8 +646,8 @@ func (ob *SuObject) Hash() uint64 {
 			if !ok {
 				break
 			}
-			hash = 31*hash + k.Hash2()
-			hash = 31*hash + v.Hash2()
+			// sum because the order of named members is not significant
+			hash += 31*k.Hash2() ^ v.Hash2()
 		}
 	}
 	return hash
